@@ -853,6 +853,16 @@ M.contract(P_SDV + '.path_from_symbol_reference:_WStrRenderingValueSymbol2PathRe
            params=dict(self=_VISITOR, value=Iface(ListSdvI)),
            raises={ValueError: {'when': lambda self: True}}, raises_only=())
 
+def string_of_symbol_and_suffix(self, symbols):
+    """(extension M12) the text a leading STRING-symbol reference stands for: its value, then the resolved suffix"""
+    return symbols.lookup(self._path_or_string_symbol.name).sdv.resolve(symbols).value_when_no_dir_dependencies() + \
+        self._suffix_sdv.resolve(symbols).value()
+
+
+def path_of_symbol(self, symbols):
+    return symbols.lookup(self._path_or_string_symbol.name).sdv.resolve(symbols)
+
+
 M.contract(P_SDV + '.path_from_symbol_reference:SdvThatIsIdenticalToReferencedPathOrWithStringValueAsSuffix.resolve',
            params=dict(self=Inst(path_from_symbol_reference.SdvThatIsIdenticalToReferencedPathOrWithStringValueAsSuffix,
                                  _path_or_string_symbol=SYMBOL_REF, _suffix_sdv=Iface(PartSdvI),
@@ -870,6 +880,20 @@ M.contract(P_SDV + '.path_from_symbol_reference:SdvThatIsIdenticalToReferencedPa
                'string-symbol: default relativity unless absolute': lambda self, symbols, result:
                implies(symbols.lookup(self._path_or_string_symbol.name).value_type is ValueType.STRING,
                        rel_view(result) is None or rel_view(result) is self.default_relativity),
+               # (extension M12) the substitution itself, not only the relativity: nothing of the suffix is dropped
+               'string-symbol: the string value followed by the whole suffix': lambda self, symbols, result:
+               symbols.lookup(self._path_or_string_symbol.name).value_type is not ValueType.STRING
+               or tail_view(result) == P(string_of_symbol_and_suffix(self, symbols)),
+               'string-symbol: absolute iff value and suffix form an absolute path': lambda self, symbols, result:
+               symbols.lookup(self._path_or_string_symbol.name).value_type is not ValueType.STRING
+               or rel_view(result) is (None if string_of_symbol_and_suffix(self, symbols).startswith('/')
+                                       else self.default_relativity),
+               'path-symbol: the referenced path joined with the suffix': lambda self, symbols, result:
+               symbols.lookup(self._path_or_string_symbol.name).value_type is not ValueType.PATH
+               or tail_view(result) == (tail_view(path_of_symbol(self, symbols))
+                                        if self._suffix_sdv.resolve(symbols).value() == ''
+                                        else join(tail_view(path_of_symbol(self, symbols)),
+                                                  P(strip_slashes(self._suffix_sdv.resolve(symbols).value())))),
                'well-formed': lambda result: wf(result),
            }, raises_only=())
 
